@@ -13,7 +13,7 @@ Every case is built through the public formulation factory as
 
 * MDF with inner MDA in {MDAJacobi, MDAGaussSeidel, MDAChain} (tolerance 1e-14),
 * IDF with normalize_constraints in {True, False} x start_at_equilibrium in {False, True},
-* parallel IDF (``n_processes`` in {2, 3}; threads in every case, processes in about one case out of eight, observed in a fresh interpreter by harness/c17_proc.py)
+* parallel IDF (``n_processes`` in {2, 3}; threads in every case, processes in about one case out of ten, observed in a fresh interpreter by harness/c17_proc.py)
   with and without start_at_equilibrium, the design point being the random current value of the design space
   (the harness disciplines' own default inputs are 0 or the fixed-parameter defaults, i.e. another point),
 * DisciplinaryOpt when the system has no strong coupling (feed-forward listing order),
@@ -76,7 +76,7 @@ TRUSTED_EXTRA = (
     "oracle compares their results with the exact rational solution up to 2^-30, so a non-converged MDA cannot pass",
     "C17: harness disciplines (harness/c17_disc.py) evaluate dyadic affine/quadratic maps exactly in float64",
     "C17: BiLevel/composite formulations and differentiated_input_names_substitute are not covered",
-    "C17: parallel IDF with processes (use_threading=False) relies on fork(); it is formed in about 1 case out of 8, in a helper process (harness/c17_proc.py); a helper that does not answer within 300 s is a skipped configuration",
+    "C17: parallel IDF with processes (use_threading=False) relies on fork(); it is formed in about 1 case out of 10, in a helper process (harness/c17_proc.py); a helper that does not answer within 300 s is a skipped configuration",
 )
 
 MDAS = ("MDAJacobi", "MDAGaussSeidel", "MDAChain")
@@ -688,7 +688,7 @@ def gen_case(rng: common.Rng, topo: str | None = None) -> dict[str, Any]:
     # parallel IDF (number of processes, which normalisation goes with which start, threads or processes),
     # which formulation is run through a DOE scenario (and on which kind of design space)
     case["xmode"] = rng.pick(["fresh", "shared"])
-    case["par"] = {"n": rng.pick([2, 2, 3]), "norm0": rng.chance(0.5), "procs": rng.chance(1 / 8)}
+    case["par"] = {"n": rng.pick([2, 2, 3]), "norm0": rng.chance(0.5), "procs": rng.chance(1 / 10)}
     case["doe"] = {"pick": rng.randrange(12), "normalize": rng.chance(1 / 3)}
     case["jacobi_threads"] = rng.chance(0.25)
     return case
@@ -2124,9 +2124,57 @@ def gen_opt_case(rng: common.Rng):
     return None
 
 
-def run_opt_case(res: Result, case, fstar: Fraction, rng: common.Rng, origin: str) -> None:
+OPT_TIMEOUT = 90  # seconds for the three scenarios of one optimisation case (normally < 10 s)
+
+
+def optimise_one(case, settings) -> dict[str, Any]:
+    """Run one MDO scenario (SLSQP) on the case; used by `harness/c17_proc.py` in a helper interpreter."""
     from gemseo.scenarios.mdo_scenario import MDOScenario
 
+    try:
+        sc = MDOScenario(build_discs(case), case["objective"], build_ds(case), **settings)
+        sc.execute(algo_name="SLSQP", max_iter=400, ftol_rel=1e-15, ftol_abs=1e-15, xtol_rel=1e-15, xtol_abs=1e-15)
+        r = sc.optimization_result
+        return {"f": float(r.f_opt), "feasible": bool(r.is_feasible)}
+    except Exception as e:  # noqa: BLE001
+        return {"error": f"{common.exc_class(e)} {e!r}"[:300]}
+
+
+def start_optimisations(case, cfgs):
+    """The optimiser is third-party compiled code (SciPy's SLSQP can cycle for ever on a degenerate problem without
+    returning to the interpreter, out of reach of any in-process time-out): it runs in a helper interpreter; the
+    configurations it has not finished within OPT_TIMEOUT are skipped (no verdict).  Returns (process, start time)."""
+    import subprocess
+    import sys
+
+    env = dict(os.environ)
+    env["PYTHONPATH"] = os.pathsep.join(p for p in [env.get("PYTHONPATH", ""), str(common.VERIF)] if p)
+    proc = subprocess.Popen([sys.executable, "-m", "harness.c17_proc"], stdin=subprocess.PIPE, stdout=subprocess.PIPE,
+                            stderr=subprocess.DEVNULL, text=True, cwd=str(common.VERIF), env=env)
+    proc.stdin.write(json.dumps({"mode": "opt", "case": case, "cfgs": cfgs}, default=str))
+    proc.stdin.close()
+    proc.stdin = None
+    return proc, time.time()
+
+
+def collect_optimisations(handle) -> dict[str, dict[str, Any]]:
+    import subprocess
+
+    proc, t0 = handle
+    try:
+        out, _ = proc.communicate(timeout=max(1.0, t0 + OPT_TIMEOUT - time.time()))
+    except subprocess.TimeoutExpired:
+        proc.kill()
+        out, _ = proc.communicate()
+    got: dict[str, dict[str, Any]] = {}
+    for line in (out or "").splitlines():
+        if line.startswith("C17-PROC-OPT "):
+            d = json.loads(line[len("C17-PROC-OPT "):])
+            got[d["ck"]] = d["result"]
+    return got
+
+
+def start_opt_case(case, rng: common.Rng):
     mda = rng.pick(["MDAJacobi", "MDAGaussSeidel", "MDAChain"])
     st = dict(MDA_SETTINGS)
     if mda == "MDAChain":
@@ -2134,25 +2182,37 @@ def run_opt_case(res: Result, case, fstar: Fraction, rng: common.Rng, origin: st
     cfgs = [("MDF/" + mda, {"formulation_name": "MDF", "main_mda_name": mda, "main_mda_settings": st}),
             ("IDF/norm=1", {"formulation_name": "IDF", "normalize_constraints": True}),
             ("IDF/norm=0", {"formulation_name": "IDF", "normalize_constraints": False})]
+    return cfgs, start_optimisations(case, cfgs)
+
+
+def finish_opt_case(res: Result, case, fstar: Fraction, started, origin: str) -> None:
+    cfgs, handle = started
     res.evaluations += 1
     res.count("optimisation-case")
-    for ck, settings in cfgs:
+    got = collect_optimisations(handle)
+    for ck, _settings in cfgs:
         key = "optimum-" + ck.split("/")[0].lower()
-        try:
-            sc = MDOScenario(build_discs(case), case["objective"], build_ds(case), **settings)
-            sc.execute(algo_name="SLSQP", max_iter=400, ftol_rel=1e-15, ftol_abs=1e-15, xtol_rel=1e-15, xtol_abs=1e-15)
-            r = sc.optimization_result
-            f = float(r.f_opt)
-            ok = bool(r.is_feasible) and near(f, fstar, OBOUND)
-            what = f"{ck}: optimum {f!r} (feasible={r.is_feasible}) instead of {float(fstar)!r} ({fstar})"
-        except Exception as e:  # noqa: BLE001
+        r = got.get(ck)
+        if r is None:
+            res.count(f"skipped-opt-cfg={ck}")
+            res.notes.append(f"{origin}: {ck}: the optimiser did not return within {OPT_TIMEOUT} s (skipped, no verdict)")
+            continue
+        if "error" in r:
             ok = False
-            what = f"{ck}: the scenario raised {common.exc_class(e)} {e!r}"[:400]
+            what = f"{ck}: the scenario raised {r['error']}"[:400]
+        else:
+            f = r["f"]
+            ok = bool(r["feasible"]) and near(f, fstar, OBOUND)
+            what = f"{ck}: optimum {f!r} (feasible={r['feasible']}) instead of {float(fstar)!r} ({fstar})"
         res.count(f"opt-cfg={ck}")
         if ok:
             res.traces_validated += 1
         else:
             res.violate("oracle", key, what, {"opt_case": case, "fstar": rat(fstar), "origin": origin, "cfg": ck})
+
+
+def run_opt_case(res: Result, case, fstar: Fraction, rng: common.Rng, origin: str) -> None:
+    finish_opt_case(res, case, fstar, start_opt_case(case, rng), origin)
 
 
 def gen_missing_coupling_case(rng) -> dict[str, Any]:
@@ -2207,13 +2267,24 @@ def run(ctx) -> Result:
     if pending is not None:
         flush_model(res, pending)
     # optimisation stream: each formulation reaches the exact optimal value of a convex instance
+    # (the scenarios run in helper interpreters, five at a time)
     orng = common.make_rng(ctx.seed, "C17-opt")
+    batch: list[Any] = []
+
+    def drain() -> None:
+        for case_, fstar_, started_, origin_ in batch:
+            finish_opt_case(res, case_, fstar_, started_, origin_)
+        batch.clear()
+
     for k in range(40 if ctx.thorough else 5):
         if time.time() > ctx.deadline:
             break
         g = gen_opt_case(orng)
         if g is not None:
-            run_opt_case(res, g[0], g[1], orng, f"seed {ctx.seed} optimisation case {k}")
+            batch.append((g[0], g[1], start_opt_case(g[0], orng), f"seed {ctx.seed} optimisation case {k}"))
+        if len(batch) >= 5:
+            drain()
+    drain()
     return res
 
 
